@@ -269,6 +269,14 @@ func (w *world) mkSpend(m *model.Ledger, fat bool) (model.Txn, bool) {
 			if remH > 0 {
 				h = t.Draw("hour-amt", remH+1)
 			}
+			if fat {
+				// spread evenly so that the many outputs all stay spendable later
+				c = unit * (((remC - left*unit) / unit) / (left + 1))
+				if c == 0 {
+					c = unit
+				}
+				h = remH / (left + 1)
+			}
 		}
 		remC -= c
 		remH -= h
@@ -306,4 +314,62 @@ func (w *world) mkSpend(m *model.Ledger, fat bool) (model.Txn, bool) {
 	}
 	w.sign(m, &tx)
 	return tx, true
+}
+
+// tieBurst builds up to max one-input-one-output transactions that all pay
+// exactly the same fee and have the same size, i.e. tie exactly in fee per
+// kilobyte, from unspents no pooled transaction uses yet.
+func (w *world) tieBurst(m *model.Ledger, max int) []model.Txn {
+	used := map[model.Hash]bool{}
+	for _, e := range m.Pool {
+		for _, in := range e.Txn.In {
+			used[in] = true
+		}
+	}
+	type cand struct {
+		id model.Hash
+		h  uint64
+		u  model.Ux
+	}
+	var cs []cand
+	headTime := m.Head().Head.Time
+	for _, id := range w.ownedUnspents(m) {
+		if used[id] {
+			continue
+		}
+		u := m.Unspent[id]
+		if u.Addr == w.locked.m {
+			continue
+		}
+		h, ov, inter := model.AccruedHours(u, headTime)
+		if ov || inter || h.Sign() == 0 {
+			continue
+		}
+		cs = append(cs, cand{id, h.Uint64(), u})
+	}
+	if len(cs) < 2 {
+		return nil
+	}
+	sort.SliceStable(cs, func(i, j int) bool { return cs[i].h > cs[j].h })
+	burn := uint64(m.Cfg.Unconfirmed.BurnFactor)
+	if b := uint64(m.Cfg.CreateBlock.BurnFactor); b < burn {
+		burn = b // the smallest factor demands the largest fee
+	}
+	// start somewhere in the list so that different bursts use different fee levels
+	cs = cs[w.c.T.Int("tie-start", (len(cs)+1)/2):]
+	fee := (cs[0].h + burn - 1) / burn
+	var out []model.Txn
+	for _, c := range cs {
+		if len(out) >= max || c.h < fee {
+			break
+		}
+		unit := uint64(1000)
+		if c.u.Coins%unit != 0 {
+			continue
+		}
+		tx := model.Txn{In: []model.Hash{c.id}, Out: []model.Out{{Addr: w.clients[len(out)%len(w.clients)].m, Coins: c.u.Coins, Hours: c.h - fee}}}
+		w.sign(m, &tx)
+		out = append(out, tx)
+	}
+	return out
 }
